@@ -226,6 +226,15 @@ package dialer
 //@   ensures forall x *Dialer {a.dialerToIndex[x]} :: x != dialer ==> isAliveIn(a, x) == old(isAliveIn(a, x))
 //@   ensures old(a.minLatency.dialer) != nil && a.minLatency.dialer != old(a.minLatency.dialer) && a.minLatency.dialer != nil && old(a.minLatency.dialer) != dialer && has(old(a.dialerToLatency), old(a.minLatency.dialer)) ==> \
 //@        a.minLatency.sortingLatency <= old(a.minLatency.sortingLatency) && (old(a.minLatency.sortingLatency) < a.tolerance || a.minLatency.sortingLatency <= old(a.minLatency.sortingLatency) - a.tolerance)
+// C14 (the annotation of the first matching filter line shapes the ranking): whenever a latency sample exists
+// for the notified node and it is alive afterwards, its entry is ranked by that sample PLUS its add_latency
+// offset - the same value the cached best is compared with
+//@   ghostfn rawL() int
+//@   ghostfn gotL() bool
+//@   at call snapshotLatencyForPolicy#1 assume-after nth(result, 0) == rawL() && nth(result, 1) == gotL()
+//@   at call snapshotLatencyForPolicy#2 assume-after nth(result, 0) == rawL() && nth(result, 1) == gotL()
+//@   at call snapshotLatencyForPolicy#3 assume-after nth(result, 0) == rawL() && nth(result, 1) == gotL()
+//@   ensures calls("snapshotLatencyForPolicy") == 1 && gotL() && alive ==> entL(a, a.dialerToIndex[dialer]) == rawL() + a.dialerToLatencyOffset[dialer] && a.dialerToLatency[dialer] == rawL()
 //@ func latencyString
 //@   trusted
 
@@ -323,6 +332,10 @@ package dialer
 //@   at call calcMinLatency#1 assert a0 == a
 //@   ensures isMinPol(a) ==> calls("calcMinLatency") == 1
 //@   ensures !isMinPol(a) ==> calls("calcMinLatency") == 0
+// every entry is re-ranked by its sample under the new policy plus its add_latency offset (0 without a sample)
+//@   loop 1
+//@     back (hasLatency && -4000000000000000000 <= rawLatency && rawLatency <= 4000000000000000000 && -4000000000000000000 <= a.dialerToLatencyOffset[entry.dialer] && a.dialerToLatencyOffset[entry.dialer] <= 4000000000000000000 ==> entry.sortingLatency == rawLatency + a.dialerToLatencyOffset[entry.dialer]) && (!hasLatency ==> entry.sortingLatency == 0)
+//@     exit $idx == len(a.aliveEntries)
 
 //@ func isMinLatencyPolicy
 //@   vpure
@@ -367,3 +380,18 @@ package dialer
 //@     entry $range[3].L4Proto == consts.L4ProtoStr_UDP && $range[3].IpVersion == consts.IpVersionStr_6 && $range[3].UdpHealthDomain == UdpHealthDomainDns && $range[3].IsDns
 //@     entry $range[4].L4Proto == consts.L4ProtoStr_UDP && $range[4].IpVersion == consts.IpVersionStr_4 && $range[4].UdpHealthDomain == UdpHealthDomainData && !$range[4].IsDns
 //@     entry $range[5].L4Proto == consts.L4ProtoStr_UDP && $range[5].IpVersion == consts.IpVersionStr_6 && $range[5].UdpHealthDomain == UdpHealthDomainData && !$range[5].IsDns
+
+// C16 (a reload hands the last known state to the new generation): the snapshot visits all eight collection
+// slots - the two TCP-DNS alias slots included, restore walks all eight - and records for every non-nil
+// collection the alive flag and counters of THAT slot.
+//@ func (*Dialer).HealthSnapshot
+//@   anchorsonly
+//@   nonilcheck
+//@   dyncalls noeffect
+//@   modifies *
+//@   ghostfn recorded(k int) bool
+//@   at call Snapshot#1 assert collection != nil
+//@   at call Snapshot#1 assume-after recorded($idx)
+//@   loop 1
+//@     back collection == nil || recorded($idx)
+//@     exit $idx == 8
